@@ -41,7 +41,7 @@ MANIFEST = dict(
 )
 
 NEGS = [("Timing_neg_stale.cfg", "stale"), ("Timing_neg_thresh.cfg", "thresh"),
-        ("Timing_neg_early.cfg", "early"), ("Timing_neg_desched.cfg", "desched")]
+        ("Timing_neg_early.cfg", "early"), ("Timing_neg_desched.cfg", "desched"), ("Timing_neg_noreset.cfg", "noreset")]
 
 
 def prints_json(r):
@@ -89,8 +89,9 @@ def design_level(thorough, res):
         res["error"] = ex
 
 
-def scripts_from_tlc(n_walks, n_pick, first_id=1):
-    r = vlib.tlc("TimingMC", "Timing_sim.cfg", workers=1, simulate="num=%d" % n_walks, depth=3000, seed_=vlib.seed(),
+def scripts_from_tlc(n_walks, n_pick, first_id=1, cfg="Timing_sim.cfg"):
+    lazy = cfg != "Timing_sim.cfg"
+    r = vlib.tlc("TimingMC", cfg, workers=1, simulate="num=%d" % n_walks, depth=3000, seed_=vlib.seed(),
                  deadlock=False, timeout=900, heap="2g")
     if r.error or r.violation:
         raise vlib.MachineryError("script generation failed: %s %s\n%s" % (r.kind, r.what, r.out[-2000:]))
@@ -103,7 +104,8 @@ def scripts_from_tlc(n_walks, n_pick, first_id=1):
         h = w["hist"]
         nd = sum(1 for e in h if e["d"] == "discard")
         late = sum(1 for e in h if e["d"] == "fire" and e["b"] > e["tok"])
-        return (min(nd, 1) + min(late, 1), nd + late)
+        flipped = sum(1 for e in h if e["a"] - e["tok"] < 20 <= e["b"] - e["tok"])   # only interesting for lazy scripts
+        return (min(flipped, 1) * 2 + min(nd, 1) + min(late, 1), flipped, nd + late)
     classes = {}
     for w in walks:
         classes.setdefault((w["disc"], w["ninst"]), []).append(w)
@@ -127,8 +129,10 @@ def scripts_from_tlc(n_walks, n_pick, first_id=1):
         cases.append({"id": cid, "kind": "script", "key": key, "ninst": w["ninst"],
                       "toks": [e["tok"] for e in h], "resp": [e["r"] for e in h], "exp": [e["d"] for e in h],
                       "pa": [e["a"] - e["tok"] for e in h], "pb": [e["b"] - e["tok"] for e in h], "fin": w["fin"],
-                      "desc": "script tokens=%s resp=%s instances=%d discard_overflow=%s" % (
-                          [e["tok"] for e in h], [e["r"] for e in h], w["ninst"], key)})
+                      "lz": [e["lz"] for e in h],
+                      "desc": "script tokens=%s resp=%s%s instances=%d discard_overflow=%s" % (
+                          [e["tok"] for e in h], [e["r"] for e in h],
+                          (" desched_after_next=%s" % [e["lz"] for e in h]) if lazy else "", w["ninst"], key)})
     return cases, len(walks)
 
 
@@ -183,7 +187,8 @@ def validate(v, trace_path, cases_by_id):
         if e["run"] >= CANARY:
             cgot[(e["run"], e["rule"])] = cgot.get((e["run"], e["rule"]), 0) + 1
             continue
-        case = cases_by_id.get(e["run"], {})
+        case = cases_by_id.get(e["run"]) or {"id": e["run"], "kind": row.get("kind", row["ev"]), "key": row.get("key"),
+                                             "desc": "multi-pool configuration, pool %s" % row.get("pool")}
         if e["rule"] in ("run-error", "run-timeout-off"):
             machinery.append("%s: case %s: %s" % (e["rule"], case.get("desc"), row))
             continue
@@ -224,8 +229,11 @@ def run(tier, v):
     try:
         b = vlib.harness_build()
         d = vlib.scratch("c04-timing-")
-        n_scripts, n_random, n_walks, n_confs = (240, 160, 3000, 60) if thorough else (28, 28, 500, 12)
+        n_scripts, n_lazy, n_random, n_walks, n_confs = (200, 100, 160, 3000, 60) if thorough else (24, 12, 28, 500, 12)
         scripts, nwalks = scripts_from_tlc(n_walks, n_scripts)
+        lscripts, lwalks = scripts_from_tlc(n_walks, n_lazy, first_id=len(scripts) + 1, cfg="Timing_simlazy.cfg")
+        scripts += lscripts
+        nwalks += lwalks
         cin = os.path.join(d, "scripts.ndjson")
         vlib.write_ndjson(cin, scripts)
         out = os.path.join(d, "trace.ndjson")
@@ -259,7 +267,9 @@ def run(tier, v):
         "samples": samples,
         "design_configs": design["per"],
         "negative_controls": design["negs"],
-        "script_walks_complete": nwalks, "scripts_replayed": len(scripts), "random_histories": len(cases) - len(scripts),
+        "script_walks_complete": nwalks, "scripts_replayed": len(scripts), "descheduling_scripts_replayed": len(lscripts),
+        "descheduling_flipped_decisions_replayed": sum(1 for c in lscripts for i_ in range(len(c["toks"]))
+                                                       if c["pa"][i_] < 20 <= c["pb"][i_]), "random_histories": len(cases) - len(scripts),
         "tokens_judged": rep["toks"],
         "tokens_discarded_observed": sum(1 for r_ in toks if r_["d"] == "discard"),
         "tokens_fired_late_observed": sum(1 for r_ in toks if r_["d"] == "fire" and r_["a"] - r_["tok"] > 100000),
@@ -287,8 +297,12 @@ def replay(path, v):
     d = vlib.scratch()
     case = obj["case"]
     cin = os.path.join(d, "case.ndjson")
-    vlib.write_ndjson(cin, [case])
     out = os.path.join(d, "trace.ndjson")
+    if case.get("kind") == "conf":
+        vlib.run_driver(b, ["timing", "-confs", "12", "-out", out], timeout=600)
+        validate(v, out, {})
+        return None
+    vlib.write_ndjson(cin, [case])
     vlib.run_driver(b, ["timing", "-in", cin, "-out", out], timeout=600)
     validate(v, out, {case["id"]: case})
     return None
